@@ -112,7 +112,7 @@ def stmt? (s : String) : Option Stmt :=
     let attr ← unhexStr a.toList
     let op ← cmpOp? o
     let ref ← jval? r
-    pure { attr := attr, op := op, ref := ref }
+    pure { attr := attr.splitOn ".", op := op, ref := ref }
   | _ => none
 
 /-- `-` none, `!` not a Filter, `s`, `s&s`, `s|s`, `s?s` (two statements, operator None) -/
@@ -136,8 +136,8 @@ def filter? (s : String) : Option (Bool × Option Filter) :=
 
 def orderKey? (s : String) : Option OrderKey :=
   match s.splitOn ":" with
-  | [a, "a"] => do let attr ← unhexStr a.toList; pure { attr := attr, dir := .asc }
-  | [a, "d"] => do let attr ← unhexStr a.toList; pure { attr := attr, dir := .desc }
+  | [a, "a"] => do let attr ← unhexStr a.toList; pure { attr := attr.splitOn ".", dir := .asc }
+  | [a, "d"] => do let attr ← unhexStr a.toList; pure { attr := attr.splitOn ".", dir := .desc }
   | _ => none
 
 /-- `-` none, `!` invalid, `=` the empty tuple, else comma separated keys -/
